@@ -36,7 +36,7 @@ class HarnessError(Exception):
 
 class Handle:
     __slots__ = ("solver", "ref", "cls", "kw", "lineage", "alive", "mode", "tainted", "origin", "parent", "added",
-                 "twin", "pins", "expansions", "held")
+                 "twin", "pins", "expansions", "held", "conj")
 
     def __init__(self, solver, ref, cls, kw, lineage, mode, origin, parent=None):
         self.parent = parent  # index of the handle this one was branched from (ancestry for merge)
@@ -45,6 +45,7 @@ class Handle:
         self.pins = {}  # var -> value, from user-added constraints of the literal form var == const / b / Not(b)
         self.expansions = []  # constraints ConstraintExpansionMixin derives from answers (accepted in unsat cores)
         self.held = {}  # hash -> constraint: everything the solver's public .constraints list has ever shown (tracked solvers)
+        self.conj = True  # the handle's model set is that of the CONJUNCTION of its lineage (false after a merge)
         self.solver = solver
         self.ref = ref
         self.cls = cls
@@ -491,6 +492,7 @@ class Machine:
         nh.pins = dict(h.pins)
         nh.expansions = list(h.expansions)
         nh.held = dict(h.held)
+        nh.conj = h.conj
         self.handles.append(nh)
         return ["h", len(self.handles) - 1]
 
@@ -519,6 +521,8 @@ class Machine:
         nh = Handle(s2, h.ref.copy(), h.cls, h.kw, list(h.lineage), h.mode, "pickle", parent=h.parent)
         nh.added = list(h.added)
         nh.pins = dict(h.pins)
+        nh.held = dict(h.held)
+        nh.conj = h.conj
         self.handles.append(nh)
         return ["h", len(self.handles) - 1]
 
@@ -991,7 +995,9 @@ class Machine:
             lineage = list(anc.lineage) + list(conds)
         newref = self.ref0().with_models(M)
         if self.dry:
-            self.handles.append(Handle(None, newref, h.cls, h.kw, lineage, h.mode, "merge"))
+            nh = Handle(None, newref, h.cls, h.kw, lineage, h.mode, "merge")
+            nh.conj = False
+            self.handles.append(nh)
             return ["h", len(self.handles) - 1]
         ca = self.asts(conds)
         k = {}
@@ -1003,6 +1009,7 @@ class Machine:
             self.unexpected(h, op, val)
         merged = val[1]
         nh = Handle(merged, newref, h.cls, h.kw, lineage, h.mode, "merge")
+        nh.conj = False
         self.handles.append(nh)
         return ["h", len(self.handles) - 1, bool(val[0])]
 
@@ -1040,6 +1047,7 @@ class Machine:
         if st != "ok":
             self.unexpected(h, op, val)
         nh = Handle(val, newref, h.cls, h.kw, lineage, h.mode, "combine")
+        nh.conj = all(x.conj for x in group)
         for x in group:
             for k, v in x.pins.items():
                 nh.pins.setdefault(k, v)
@@ -1088,14 +1096,59 @@ class Machine:
                      duplicated=len(dup))
         # (3) jointly equivalent: each part becomes a handle whose reference is the projection of M on its variables
         out = []
-        if h.ref.M:
+        # The parts of a satisfiable solver are judged against the projections of its model set.  An unsatisfiable solver
+        # has no models to project, but split() partitions the constraints by variables, so a part's model set is that of
+        # the added constraints over its variables - usable when building no constraint eliminated a variable.
+        by_vars = None
+        if not h.ref.M and h.conj:
+            def conjuncts(c):
+                if c[0] == "band":
+                    for x in c[1:]:
+                        yield from conjuncts(x)
+                else:
+                    yield c
+
+            try:
+                cj = [x for c in h.lineage for x in conjuncts(c)]
+                # (split() separates the conjuncts of an And; a conjunct whose construction eliminated a variable or folded
+                # to a constant would not be where its spec says it is)
+                if all(set(self.ast(c).variables) == S.spec_vars(c) and self.ast(c).op != "And" for c in cj):
+                    by_vars = [(S.spec_vars(c), S.compile_spec(c, self.variables, self.order)) for c in cj]
+            except Exception:  # noqa: BLE001
+                by_vars = None
+        if not h.ref.M:
+            # An unsatisfiable solver has no models to project and may have collapsed to `False` altogether (its own
+            # simplify()), so no part can be given a reference of its own (tried: deriving it from the added constraints
+            # over the part's variables raised false alarms).  What the statement demands jointly: the parts together are
+            # unsatisfiable, i.e. at least one of them is.
+            by_vars = None
+            verdicts = []
+            for p in parts:
+                st, val = self.call(p.satisfiable)
+                if st == "exc":
+                    self.unexpected(h, op, val)
+                verdicts.append(False if st == "unsat" else bool(val))
+            falses = any((not c.symbolic) and c.is_false() for p in parts for c in p.constraints)
+            if parts and all(verdicts) and not falses:
+                self.bad("split-parts-jointly-satisfiable", h, op, parts=len(parts))
+        if h.ref.M or by_vars is not None:
             for p in parts:
                 pv = [i for i, n in enumerate(self.order) if n in p.variables]
-                proj = {tuple(m[i] for i in pv) for m in h.ref.M}
+                if h.ref.M:
+                    proj = {tuple(m[i] for i in pv) for m in h.ref.M}
+                else:
+                    if not pv:
+                        continue
+                    fs = [f for vs, f in by_vars if vs and vs <= set(p.variables)]
+                    proj = {tuple(m[i] for i in pv) for m in self.ref0().universe if all(f(*m) for f in fs)}
                 M = [m for m in self.ref0().universe if tuple(m[i] for i in pv) in proj]
                 # the parts of a hybrid are HybridFrontend objects: for the oracle's choice of mode they are hybrids
                 pcls = "SolverHybrid" if h.cls == "SolverHybrid" else type(p).__name__
                 nh = Handle(p, self.ref0().with_models(M), pcls, h.kw, list(h.lineage), h.mode, "split")
+                nh.added = list(h.added)
+                nh.held = dict(h.held)
+                nh.expansions = list(h.expansions)
+                nh.conj = h.conj
                 self.handles.append(nh)
                 out.append(len(self.handles) - 1)
                 # probe the part right away with assignments of its own variables: members and non-members
